@@ -1,6 +1,6 @@
 #!/venv/bin/python
 """usage: tools/mutate.py gen <N> <seed>            -> out/mut/cands.json   (N sampled single-point mutants of cocoasm/*.py and the two CLIs)
-          tools/mutate.py run [-j J] [--max M]      -> out/mut/results.json (for each: do the 490 repository tests still pass? if so, which of my quick checks notices?)
+          tools/mutate.py run [-j J] [--max M] [--tests-only] [--max-checks K]     -> out/mut/results.json (for each: do the 490 repository tests still pass? if so, which of my quick checks notices?)
           tools/mutate.py report
 
 Automated counterpart of the hand-seeded changes: every mutant is one small syntactic change (comparison boundary, constant +-1,
@@ -142,13 +142,13 @@ def sh(cmd, **kw):
     return subprocess.run(cmd, shell=True, stdout=subprocess.PIPE, stderr=subprocess.STDOUT, text=True, **kw)
 
 
-def run(J, maxn):
+def run(J, maxn, tests_only=False, max_checks=99):
     data = json.load(open(os.path.join(OUT, "cands.json")))
     rp = os.path.join(OUT, "results.json")
     results = json.load(open(rp)) if os.path.exists(rp) else {}
     q = queue.Queue()
     for c in data["cands"][:maxn]:
-        if c["id"] not in results:
+        if c["id"] not in results or (not tests_only and results[c["id"]]["status"] == "passes-repo-tests"):
             q.put(c)
     lock = threading.Lock()
 
@@ -167,16 +167,17 @@ def run(J, maxn):
                 except Exception as e:
                     done = None
                 r = {"file": c["file"], "kind": c["kind"], "change": done}
+                known_pass = results.get(c["id"], {}).get("status") == "passes-repo-tests"
                 if not done or done[1] == done[2]:
                     r["status"] = "no-change"
                 else:
-                    b = sh("%s %s" % (os.path.join(V, "tools", "baseline.py"), wt))
-                    if "490 passing now" not in b.stdout:
+                    b = None if known_pass else sh("%s %s" % (os.path.join(V, "tools", "baseline.py"), wt))
+                    if b is not None and "490 passing now" not in b.stdout:
                         r["status"] = "killed-by-repo-tests"
                     else:
                         r["status"] = "survived"
                         r["checks"] = {}
-                        for p in FILES[c["file"]]:
+                        for p in ([] if tests_only else FILES[c["file"]][:max_checks]):
                             log = os.path.join(OUT, "%s_%s.log" % (c["id"], p))
                             rr = subprocess.run([os.path.join(V, "check"), p, "--tier", "quick"], stdout=open(log, "w"), stderr=subprocess.STDOUT,
                                                 env=dict(os.environ, VERIF_REPO=wt), cwd=V)
@@ -189,6 +190,8 @@ def run(J, maxn):
                             if rr.returncode == 0:
                                 os.remove(log)
                 with lock:
+                    if r["status"] == "survived" and tests_only:
+                        r["status"] = "passes-repo-tests"
                     results[c["id"]] = r
                     json.dump(results, open(rp, "w"), indent=1)
                     print(c["id"], c["file"], r["status"], r.get("by", ""), done, flush=True)
@@ -216,12 +219,16 @@ if __name__ == "__main__":
         gen(int(sys.argv[2]), int(sys.argv[3]))
     elif sys.argv[1] == "run":
         a = sys.argv[2:]
-        J, M = 2, 10 ** 9
+        J, M, T, K = 2, 10 ** 9, False, 99
         while a:
             if a[0] == "-j":
                 J = int(a[1]); a = a[2:]
             elif a[0] == "--max":
                 M = int(a[1]); a = a[2:]
-        run(J, M)
+            elif a[0] == "--tests-only":
+                T = True; a = a[1:]
+            elif a[0] == "--max-checks":
+                K = int(a[1]); a = a[2:]
+        run(J, M, T, K)
     else:
         report()
